@@ -54,6 +54,9 @@ def observe(U, c):
             q = U.UnitValue(c["v"], _units(U, tuple(c["src"]), tuple(c["dim"])))
             r = q.convert(U.UnitsSystem(*c["via"])).convert(U.UnitsSystem(*c["dst"]))
             return ["scalar", float(r.value), si.sys_of(r.units.sys), si.dim_of(r.units.dim)]
+        if k == "composite":
+            r = U.UnitValue("%r %s" % (c["v"], c["text"])).convert(U.UnitsSystem(*c["dst"]))
+            return ["scalar", float(r.value), si.sys_of(r.units.sys), si.dim_of(r.units.dim)]
         if k == "derived":
             s = c["sym"] + ("" if c["e"] == 1 else str(c["e"]))
             u = U.parse_units(s)
@@ -66,7 +69,9 @@ def observe(U, c):
 
 def emit(c, o):
     k = c["kind"]
-    if k in ("scalar", "array"):
+    if k == "composite":
+        gc = "(ConvScalar %s %s %s %s None)" % (g_float(c["v"]), si.g_usys(c["src"]), si.g_dim(c["dim"]), si.g_usys(c["dst"]))
+    elif k in ("scalar", "array"):
         tdim = si.g_dim(c["tdim"]) if c["form"] in ("Units", "str", "UnitValue") else None
         v = g_float(c["v"]) if k == "scalar" else g_list([g_float(x) for x in c["v"]])
         gc = "(%s %s %s %s %s %s)" % ("ConvScalar" if k == "scalar" else "ConvArray", v, si.g_usys(c["src"]),
@@ -147,6 +152,29 @@ def gen_cases(rng, tier):
         for e in (-2, -1, 1, 2, 3):
             dst = ["m", "s", "mol"] if e != 2 else list(rng.choice(si.all_systems()))
             cases.append({"kind": "derived", "sym": sym, "e": e, "dst": dst, "group": "exhaustive-derived"})
+    # (b') composite texts: several factors of ONE base written separately - the same symbol twice, a litre symbol beside its base
+    # length, a molar symbol beside the litre - read as the sum of the exponents (a factor that is dropped changes the dimension)
+    VB = {"kL": "m", "L": "dm", "mL": "cm", "µL": "mm", "nL": "dmm", "pL": "cmm", "fL": "µm"}
+    MB = {"kM": "kmol", "M": "mol", "dM": "dmol", "cM": "cmol", "mM": "mmol", "µM": "µmol", "nM": "nmol", "pM": "pmol", "fM": "fmol"}
+    comp = []
+    for idx, table in enumerate((si.SPACE, si.TIME, si.AMOUNT)):
+        for u in table:
+            a, b = rng.choice([1, 2, 3]), rng.choice([-2, -1, 1, 2])
+            if a + b != 0:
+                src, dim = list(DEFAULT), [0, 0, 0]
+                src[idx], dim[idx] = u, a + b
+                fa = u + ("" if a == 1 else str(a))
+                comp.append((fa + ("." + u + ("" if b == 1 else str(b)) if b > 0 else "/" + u + ("" if b == -1 else str(-b))), src, dim))
+    for v_, b_ in VB.items():
+        comp.append((v_ + "/" + b_ + "2", [b_, "s", "molecule"], [1, 0, 0]))                 # a volume per area is a length
+        comp.append((b_ + "." + v_, [b_, "s", "molecule"], [4, 0, 0]))
+    for m_, q_ in MB.items():
+        comp.append((m_ + ".L", ["dm", "s", q_], [0, 0, 1]))                                  # a concentration times a volume is an amount
+        comp.append((m_ + ".dm", ["dm", "s", q_], [-2, 0, 1]))
+        comp.append(("mol/L." + "dm" if m_ == "M" else m_ + "/dm", ["dm", "s", q_], [-2 if m_ == "M" else -4, 0, 1]))
+    for text, src, dim in comp:
+        cases.append({"kind": "composite", "text": text, "v": 2.5, "src": src, "dim": dim, "dst": list(rng.choice(si.all_systems())),
+                      "group": "composite-text"})
     # (c) every accepted target form, scalar and array, right and wrong dimension
     systems = si.all_systems()
     for form in ("str", "Units", "UnitValue", "UnitsSystem", "dict"):
